@@ -28,28 +28,27 @@ class _Handle:
 
 
 class FakePathModule:
-    """stands in for the `pathlib` module inside discretisedfield.io: Path(x).open(mode=...) yields a handle on the MemFS"""
+    """stands in for the `pathlib` module inside discretisedfield.io: paths are real pure paths (suffix, name, ... work) whose
+    open() yields a handle on the MemFS"""
 
     def __init__(self, fs):
+        import pathlib as _pl
+
         self._fs = fs
         outer = self
 
-        class Path:
-            def __init__(self, p):
-                self._p = str(p)
-
+        class Path(_pl.PurePosixPath):
             def open(self, mode="rt", encoding=None):
-                if "r" in mode and self._p not in outer._fs.files:
-                    raise FileNotFoundError(self._p)
-                return _Handle(outer._fs, self._p, mode)
-
-            def __str__(self):
-                return self._p
+                key = str(self)
+                if "r" in mode and key not in outer._fs.files:
+                    raise FileNotFoundError(key)
+                return _Handle(outer._fs, key, mode)
 
             def exists(self):
-                return self._p in outer._fs.files
+                return str(self) in outer._fs.files
 
         self.Path = Path
+        self.PurePath = _pl.PurePath
 
 
 def _encode(o, encoder):
@@ -548,3 +547,193 @@ def h5_stub(hdf5_module):
         yield fake
     finally:
         hdf5_module.h5py = old
+
+
+# ----------------------------------------------------------------------------------------------------------------
+# OVF environment: in-memory binary file made of header/footer bytes and typed data chunks.  Contract: bytes written are
+# the bytes read; a chunk written with format F and read with the same F returns the same values ('<d'/'>d' are the
+# identity on binary64; '<f'/'>f' round to binary32, an uninterpreted function f32); a chunk read with another byte
+# order or width returns unrelated values (uninterpreted function of the value); a read past the end returns fewer items.
+class SymChunk:
+    def __init__(self, values, fmt):
+        self.values = list(values)
+        self.fmt = fmt
+
+    def __len__(self):
+        return len(self.values) * (8 if self.fmt[-1] == "d" else 4)
+
+
+class _TypedSeq:
+    """result of np.asarray(symbolic, dtype='<d'|'<f'|...) -- only .tobytes() is used by the writer"""
+
+    def __init__(self, values, fmt):
+        self.values, self.fmt = values, fmt
+
+    def tobytes(self):
+        return SymChunk(self.values, self.fmt)
+
+
+def _f32(x):
+    from .scalars import SymReal, as_real_term, uf as _uf, Sym
+
+    if isinstance(x, Sym):
+        return SymReal(_uf("f32", as_real_term(x)))
+    return float(np.float32(x))
+
+
+class OvfFile:
+    def __init__(self, store, name, mode):
+        self.store, self.name, self.mode = store, name, mode
+        if "w" in mode:
+            store[name] = []
+        elif name not in store:
+            raise FileNotFoundError(name)
+        self.pos = 0  # item index in the store list (read mode)
+        self._lines = None
+
+    def __enter__(self):
+        return self
+
+    def __exit__(self, *a):
+        return False
+
+    def write(self, data):
+        self.store[self.name].append(data)
+
+    # reading: header bytes are split into lines; chunks are consumed by read()/fromfile
+    def _items(self):
+        return self.store[self.name]
+
+    def __iter__(self):
+        return self
+
+    def __next__(self):
+        items = self._items()
+        while self.pos < len(items):
+            it = items[self.pos]
+            if isinstance(it, (bytes, bytearray)):
+                if self._lines is None:
+                    self._lines = it.splitlines(keepends=True)
+                if self._lines:
+                    return self._lines.pop(0)
+                self._lines = None
+                self.pos += 1
+                continue
+            raise StopIteration
+        raise StopIteration
+
+    def _pending_bytes(self):
+        """bytes left over from a partly iterated header item"""
+        if self._lines:
+            rest = b"".join(self._lines)
+            self._lines = None
+            self._items()[self.pos] = rest
+            return
+        if self._lines is not None:
+            self._lines = None
+            self.pos += 1
+
+    def read(self, nbytes):
+        self._pending_bytes()
+        items = self._items()
+        if self.pos >= len(items):
+            return b""
+        it = items[self.pos]
+        if isinstance(it, (bytes, bytearray)):
+            out, rest = it[:nbytes], it[nbytes:]
+            if rest:
+                items[self.pos] = rest
+            else:
+                self.pos += 1
+            return bytes(out)
+        raise TypeError("read(): next item is a typed chunk")
+
+    def take(self, count, fmt):
+        """count items read with format fmt from the following chunks / bytes"""
+        import struct as _struct
+
+        self._pending_bytes()
+        items = self._items()
+        out = []
+        width = 8 if fmt[-1] == "d" else 4
+        while len(out) < count and self.pos < len(items):
+            it = items[self.pos]
+            if isinstance(it, SymChunk):
+                need = count - len(out)
+                vals = it.values[:need]
+                if it.fmt == fmt:
+                    out.extend(vals)
+                elif it.fmt[-1] == fmt[-1]:
+                    from .scalars import SymReal, Sym, as_real_term, uf as _uf
+
+                    out.extend(SymReal(_uf("bswap", as_real_term(v))) if isinstance(v, Sym) else float("nan") for v in vals)
+                else:
+                    from .core import Unsupported
+
+                    raise Unsupported("OVF stub: chunk read with a different item width")
+                if need < len(it.values):
+                    items[self.pos] = SymChunk(it.values[need:], it.fmt)
+                else:
+                    self.pos += 1
+            elif isinstance(it, (bytes, bytearray)):
+                need = (count - len(out)) * width
+                raw, rest = it[:need], it[need:]
+                usable = len(raw) - len(raw) % width
+                out.extend(x[0] for x in _struct.iter_unpack(fmt, raw[:usable]))
+                if rest:
+                    items[self.pos] = rest
+                else:
+                    self.pos += 1
+                if usable < need:
+                    if rest:
+                        continue
+            else:
+                self.pos += 1
+        return out
+
+
+class OvfNumpy:
+    """numpy proxy for discretisedfield.io.ovf: typed conversion + tobytes and fromfile on the in-memory file"""
+
+    def __init__(self, base):
+        self._base = base
+
+    def __getattr__(self, name):
+        return getattr(self._base, name)
+
+    def asarray(self, a, dtype=None, **kw):
+        from .sarray import has_sym, plain, symify
+
+        if isinstance(dtype, str) and dtype in ("<d", ">d", "<f", ">f") and (has_sym(a) or type(a).__name__ == "SymArray" or type(a).__name__ == "flatiter"):
+            vals = list(np.asarray(plain(symify(list(a) if not isinstance(a, np.ndarray) else a)), dtype=object).ravel())
+            if has_sym(vals):
+                if dtype[-1] == "f":
+                    vals = [_f32(v) for v in vals]
+                return _TypedSeq(vals, dtype)
+        return self._base.asarray(a, dtype=dtype, **kw)
+
+    def fromfile(self, f, count=-1, dtype=float, **kw):
+        from .sarray import symarray
+
+        if isinstance(f, OvfFile):
+            vals = f.take(int(count), dtype)
+            return symarray(vals) if len(vals) else np.zeros(0)
+        return np.fromfile(f, count=count, dtype=dtype, **kw)
+
+
+@contextlib.contextmanager
+def ovf_stub(ovf_module):
+    store = {}
+    old_np = ovf_module.np
+    had_open = "open" in ovf_module.__dict__
+    old_open = ovf_module.__dict__.get("open")
+    ovf_module.np = OvfNumpy(old_np)
+    ovf_module.open = lambda name, mode="r", *a, **k: OvfFile(store, str(name), mode)
+    try:
+        yield store
+    finally:
+        ovf_module.np = old_np
+        if had_open:
+            ovf_module.open = old_open
+        else:
+            del ovf_module.open
